@@ -187,6 +187,32 @@ func runC13(c *Check) {
 					c.Req(o == "SR" || o == "RS", name, p.InstrPos(r), nthKey("diff", n)+":arg", "what is shown is one of the two set differences", "shows "+p.T(v).String())
 					shown[o] = true
 				}
+			} else if t.Op == "bin" && t.Name == "+" {
+				// the message built by concatenation: constants are the text, every other leaf is shown — right after its label
+				var leaves []*Term
+				var flat func(x *Term)
+				flat = func(x *Term) {
+					if x.Op == "bin" && x.Name == "+" && len(x.Args) == 2 {
+						flat(x.Args[0])
+						flat(x.Args[1])
+						return
+					}
+					leaves = append(leaves, x)
+				}
+				flat(t)
+				last := ""
+				for _, lf := range leaves {
+					if lf.Op == "const" {
+						format += lf.Name
+						last = lf.Name
+						continue
+					}
+					o := orient(lf)
+					c.Req(o == "SR" || o == "RS", name, p.InstrPos(r), nthKey("diff", n)+":arg", "what is shown is one of the two set differences", "shows "+lf.String())
+					want := map[string]string{"SR": "source ahead", "RS": "replica ahead"}[o]
+					c.Req(want != "" && strings.Contains(last, want), name, p.InstrPos(r), nthKey("diff", n)+":label-order:"+o, "each difference follows its own label", "after '"+last+"'")
+					shown[o] = true
+				}
 			} else {
 				c.Fail(name, p.InstrPos(r), nthKey("diff", n), "the answer is a message", "returns "+t.String())
 				continue
